@@ -210,7 +210,9 @@ def get_source_area(f, g):
     M_shifted[1:] = M_cum[:-1]
 
     # map back to original positions
-    g_rescaled = np.empty_like(g_flat)
+    # the result holds cumulative sums of f: it takes their dtype, not g's
+    # (an integer-typed g, e.g. a class map, would truncate them to zero)
+    g_rescaled = np.empty(g_flat.shape, dtype=M_shifted.dtype)
     g_rescaled[order] = M_shifted
 
     return g_rescaled.reshape(g.shape)
